@@ -6,6 +6,7 @@ from .. import terms as tm
 from ..arity import Arity, length
 from ..model import AnalysisError
 from .common import ob, need, call_name, resolve_ite_free, linear_form, linear_sum, is_lit
+from . import common
 from .. import symeval
 from . import c15, common
 
@@ -327,8 +328,20 @@ def rule_permexh(ctx):
             yield ob(R, f, "%s:orientation@%d" % (q, n_or), good_o, "score entry [%s, %s] holds estimate %s against true source %s" % (tm.show(comps[0], 1), tm.show(comps[1], 1), "/".join(tm.show(z, 1) for z in est_ix) or "?", "/".join(tm.show(z, 1) for z in true_ix) or "?"), node=m.node)
         need(n_or >= 2, R, "%s: stores of the decomposition criteria into the score matrices not found" % q)
         rets = [r for r in s.returns if r.term.op == "tuple"]
-        perm_ret = [r for r in rets if any(cc.op == "param" and cc.a[0] == "compute_permutation" and p for cc, p in symeval.pc_conds(r.pc))]
-        noperm_ret = [r for r in rets if any(cc.op == "param" and cc.a[0] == "compute_permutation" and not p for cc, p in symeval.pc_conds(r.pc))]
+        from .common import facts as _facts
+
+        perm_ret = [r for r in rets if any(cc.op == "param" and cc.a[0] == "compute_permutation" and p for cc, p in _facts(r.pc))]
+        noperm_ret = [r for r in rets if any(cc.op == "param" and cc.a[0] == "compute_permutation" and not p for cc, p in _facts(r.pc))]
+        if not noperm_ret:
+            # `if not compute_permutation or nsrc == 1`: a single source admits only the identity permutation, so it may
+            # share the direct route
+            def single_source(z):
+                return z.op == "cmp" and z.a[0] == "==" and any(tm.is_const(y, 1) for y in z.a[1:]) and any(common.dim_of(y) is not None or (y.op == "call" and call_name(y) == "builtins.len") for y in z.a[1:])
+
+            for r in rets:
+                for cc, p in symeval.pc_conds(r.pc):
+                    if p and cc.op == "bool" and cc.a[0] == "or" and any(z.op == "un" and z.a[0] == "not" and z.a[1].op == "param" and z.a[1].a[0] == "compute_permutation" for z in cc.a[1:]) and all(single_source(z) or (z.op == "un" and z.a[0] == "not" and z.a[1].op == "param") for z in cc.a[1:]):
+                        noperm_ret.append(r)
         good = len(perm_ret) == 1 and len(noperm_ret) == 1
         if good:
             last = perm_ret[0].term.a[-1]
